@@ -36,6 +36,9 @@ def tables(tier):
         dict(name="ssi", variant="SSI", F=t_ssi, xs=xs, ys=ys, maxlen=3),
         dict(name="plscf", variant="pLSCF", F=t_pl, xs=xs, ys=[1, 5, 9], maxlen=3),
         dict(name="fdd", variant="FDD", F=fdd, xs=[1, 9, 14, 30], ys=[0], maxlen=3),
+        # modifier already held: three clicks fit into three events (a new pick may have to move two slots)
+        dict(name="ssi_held", variant="SSI", F=t_ssi, xs=xs, ys=ys, maxlen=3, init_shift=True, keys=[]),
+        dict(name="plscf_held", variant="pLSCF", F=t_pl, xs=xs, ys=[1, 5, 9], maxlen=3, init_shift=True, keys=[]),
     ]
     if tier == "thorough":
         out = [
@@ -161,6 +164,8 @@ def handover_case(t, events, sel):
     """Run the real mpe_from_plot with the events scripted; return list of mismatch clauses."""
     alg = make_algo(t)
     errors = []
+    if t.get("init_shift"):
+        events = [{"name": "KeyPress", "key": "shift"}] + list(events)
     with headless.scripted(events, Q, errors):
         try:
             if t["variant"] == "FDD":
@@ -219,7 +224,9 @@ def run_table(ctx, t):
     nr, nc = len(F), len(F[0])
     consts = {
         "F": Raw("<<" + ", ".join("<<" + ", ".join(str(v) for v in row) + ">>" for row in F) + ">>"),
-        "NR": nr, "NC": nc, "Xs": set(t["xs"]), "Ys": set(t["ys"]), "Keys": {"shift", "a"}, "MaxLen": t["maxlen"],
+        "NR": nr, "NC": nc, "Xs": set(t["xs"]), "Ys": set(t["ys"]),
+        "Keys": (set(t["keys"]) if t.get("keys") else Raw("{}")) if "keys" in t else {"shift", "a"},
+        "InitShift": bool(t.get("init_shift", False)), "MaxLen": t["maxlen"],
     }
     mod, cfg = ctx.model("Pick", t["name"], consts,
                          invariants=["Paired", "Sorted", "OrderIndependent"],
@@ -233,10 +240,13 @@ def run_table(ctx, t):
     if not t.get("simulate") and len(r.transitions) != r.generated - r.initial:
         raise core.MachineryFailure("emitted transition count differs from TLC's")
     graph = walk.Graph(r.transitions)
-    init = {"sel": [], "shift": False, "len": 0}
+    init = {"sel": [], "shift": bool(t.get("init_shift", False)), "len": 0}
 
     def make_world():
-        return headless.new_dialog(make_algo(t), t["variant"])
+        d = headless.new_dialog(make_algo(t), t["variant"])
+        if t.get("init_shift"):
+            headless.fire(d, {"name": "KeyPress", "key": "shift"}, Q)
+        return d
 
     def apply(d, act):
         try:
